@@ -616,6 +616,12 @@ func checkWaitGroupAddBeforeGo(c *Ctx, r *Report, rule string) {
 					}
 				}
 			}
+			if len(ci.Common().Args) > 0 {
+				if g, isGlobal := ci.Common().Args[0].(*ssa.Global); isGlobal {
+					r.Bad(rule, construct, c.Pos(ci.Pos()), "the WaitGroup "+g.Name()+" is a package-level variable shared by every concurrent caller (the reader goroutine and the operation both log): an Add that overlaps another caller's Wait panics with 'WaitGroup is reused before previous Wait has returned', or makes one caller wait for the other's work")
+					continue
+				}
+			}
 			if captured {
 				r.Bad(rule, construct, c.Pos(ci.Pos()), "the WaitGroup counter is raised inside the goroutine it accounts for: Wait can observe zero before that goroutine has run and return while it is still alive (and Add concurrent with Wait is a misuse of the WaitGroup)")
 			} else {
